@@ -183,7 +183,7 @@ class Batch:
                     if tok in by_name and tok not in seen:
                         seen.add(tok)
                         used.append(by_name[tok])
-            ok, failing, log = coqcases.run_cases(f'{name}{k}', 'Graph Reactor ReactorStage ReactorQueue', [self.cases[i] for i in idx], extra='\n'.join(head + used), shard=len(idx))
+            ok, failing, log = coqcases.run_cases(f'{name}{k}', 'Graph Reactor ReactorStage ReactorQueue ReactorPrepared', [self.cases[i] for i in idx], extra='\n'.join(head + used), shard=len(idx))
             return ok, [idx[j] for j in failing], log
         ok_all, failing, logs = True, [], []
         with cf.ThreadPoolExecutor(max_workers=4) as ex:
@@ -1265,6 +1265,100 @@ def corr_queue(ck):
 
 
 # ---------------------------------------------------------------------------------------------------------------------
+# correspondence 7: PreparedReactor.__call__, multi-step mode (coq/model/ReactorPrepared.v), molecules and reactors as tokens
+
+def corr_prepared(ck):
+    import chython.reactor.reactions as pmod
+    from chython import smiles
+    rng = random.Random(f'{ck.seed}:c16prepared')
+    batch = Batch()
+
+    def tl(xs):
+        return zl(list(xs))
+    for name, rsets in PREPARED_SETS.items():
+        template = getattr(pmod, name + '_template', None)
+        if not isinstance(template, dict) or not template:
+            continue
+        for rs, variant, use_excess in itertools.product(rsets, range(2 if ck.tier == 'quick' else 5), (False, True)):
+            if use_excess and variant:
+                continue
+            prep = pmod.PreparedReactor(template, name)      # a private instance: its reactors are wrapped, /repo is untouched
+            ms = [smiles(x) for x in rs]
+            if variant:
+                ms = [sparse_renumber(m, rng) for m in ms]
+                rng.shuffle(ms)
+            toks = {}
+
+            def tok(m):
+                return toks.setdefault((tuple(m._atoms), str(m)), len(toks) + 1)
+            calls, overlaps = [], []
+
+            class Wrapped:
+                def __init__(self, rx, idx):
+                    self.rx, self.idx = rx, idx
+
+                def __call__(self, *rct):
+                    rec = {'idx': self.idx, 'rct': [tok(x) for x in rct], 'out': [], 'keys': [], 'exc': 'None'}
+                    calls.append(rec)
+                    try:
+                        for r in self.rx(*rct):
+                            rec['out'].append([tok(x) for x in r.products])
+                            rec['keys'].append(str(r))
+                            yield r
+                    except Exception as e:
+                        rec['exc'] = 'Some ' + exn(e)[4:]
+                        raise
+            prep.rxn_ms = [Wrapped(rx, i + 1) for i, rx in enumerate(prep.rxn_ms)]
+            orig_fix = pmod.fix_mapping_overlap
+
+            def wfix(ss):
+                out = orig_fix(ss)
+                overlaps.append(([tok(x) for x in ss], [tok(x) for x in out]))
+                return out
+            pmod.fix_mapping_overlap = wfix
+            kw = {'excess': [len(ms) - 1]} if use_excess else {}
+            try:
+                real, e = gen_list(prep(*ms, one_shot=False, check_alerts=False, **kw), 300)
+            finally:
+                pmod.fix_mapping_overlap = orig_fix
+            if len(real) >= 300 or not overlaps:
+                ck.count('prepared:skipped')
+                continue
+            molecules = overlaps[0][1]
+            keys = {}
+            react_t = lst([tup(tup(zraw(c['idx']), tl(c['rct'])), tup(lst([tl(x) for x in c['out']]), c['exc'])) for c in calls])
+            key_t = lst([tup(tup(tl(c['rct']), tl(o)), zraw(keys.setdefault(k, len(keys)))) for c in calls for o, k in zip(c['out'], c['keys'])])
+            over_t = lst([tup(tl(i), tl(o)) for i, o in overlaps[1:]])
+            excess_t = f'(Some {tl([molecules[-1]])})' if use_excess else 'None'
+            funs = (f'(fun rx rct => ptab {react_t} rx rct ([], Some OtherError)) (fun rct p => tab2 {key_t} rct p (-1)) (fun ms => tab1 {over_t} ms []) '
+                    f'{tl(range(1, len(prep.rxn_ms) + 1))} (fun _ => true) {tl(molecules)} {excess_t} 3000%nat')
+            # the yielded reactions, identified by (reactants of the stage, products): first occurrence of every reaction string
+            seen_k, ys = set(), []
+            for c in calls:
+                for o, k in zip(c['out'], c['keys']):
+                    if k not in seen_k:
+                        seen_k.add(k)
+                        ys.append(tup(tl(c['rct']), tl(o)))
+            batch.add(f'prep_eqb (multistep Z Z Z Z.eqb {funs}) ({lst(ys)}, {e}) && ptrace_eqb (multistep_trace Z Z Z Z.eqb {funs}) '
+                      f'{lst([tup(zraw(c["idx"]), tl(c["rct"])) for c in calls])}',
+                      {'kind': 'PreparedReactor.__call__ multi-step', 'reaction': name, 'reactants': rs, 'excess': use_excess, 'stages': len(calls), 'yielded': len(real)})
+            ck.count('prepared:' + ('explicit excess' if use_excess else 'default excess') + (':several generations' if len(calls) > len(prep.rxn_ms) else ''))
+            ck.case(('prepared-tie', name, rs, variant, use_excess), nontrivial=len(real) > 0)
+            # read-out independent of the model: one yielded reaction per distinct stage reaction string, same products in the same order
+            if e == 'None' and len(real) != len(ys):
+                ck.counterexample(f'prepared-yields:{name}:{rs}', 'PreparedReactor multi-step mode does not yield one reaction per distinct stage reaction',
+                                  {'reaction': name, 'reactants': rs}, len(real), len(ys), 'stage reactions recorded from the wrapped reactors')
+    ok, failing, log = batch.run('c16pr', chunk=8)
+    ck.oblige('correspondence: PreparedReactor.__call__(one_shot=False) == Coq ReactorPrepared.multistep (yielded reactions and the sequence of '
+              '(reactor, reactants) stages; the reactors, str(r) and fix_mapping_overlap recorded from the real call as tables over tokens)',
+              ok and not failing, 'correspondence', log or str([batch.meta[i] for i in failing[:5]]))
+    ck.extra['prepared_cases'] = len(batch.cases)
+    if not ok or failing:
+        ck.unchecked('correspondence ReactorPrepared vs chython/reactor/reactions/__init__.py:PreparedReactor.__call__', log[-1500:], [repr(batch.meta[i]) for i in failing[:20]])
+    return ok and not failing
+
+
+# ---------------------------------------------------------------------------------------------------------------------
 # search: property-level oracles on the real code, independent of the model
 
 def search_deleted_exhaustive(ck):
@@ -1862,6 +1956,72 @@ def search_exhaustive_closure(ck):
                                   'breadth-first closure with Transformer on one molecule at a time', replay_py=rp)
     ck.extra['exhaustive_closures_checked'] = n
 
+PREPARED_SETS = {
+    # reactants whose products must react AGAIN with a reactant of the call through ANOTHER template variant of the collection
+    'amidation': [('NCc1ccc(N)cc1', 'CC(O)=O'), ('CNCCN', 'OC(=O)CC'), ('NCCN', 'CC(=O)O'), ('OC(=O)CCC(=O)O', 'NCC'), ('CNCCCN', 'OC(=O)c1ccccc1')],
+    'esterification': [('OCCO', 'CC(=O)O'), ('OCC(C)O', 'CC(=O)O'), ('OC(=O)CC(=O)O', 'OC')],
+    'sulfonamidation': [('NCCNC', 'CS(=O)(=O)Cl'), ('NCc1ccc(N)cc1', 'CS(Cl)(=O)=O')],
+    'amine_isocyanate': [('NCCNC', 'CN=C=O'), ('NCc1ccc(N)cc1', 'CN=C=O')],
+    'reductive_amination': [('NCCN', 'CC=O'), ('CNCCN', 'O=Cc1ccccc1')],
+    'suzuki_miyaura': [('Brc1ccc(I)cc1', 'OB(O)c1ccccc1')],
+}
+# all products reachable by repeated amidation, written by hand
+PREPARED_EXPECTED = {
+    ('amidation', ('NCc1ccc(N)cc1', 'CC(O)=O')): ['CC(=O)NCc1ccc(N)cc1', 'CC(=O)Nc1ccc(CN)cc1', 'CC(=O)NCc1ccc(NC(C)=O)cc1'],
+    ('amidation', ('CNCCN', 'OC(=O)CC')): ['CCC(=O)NCCNC', 'CCC(=O)N(C)CCN', 'CCC(=O)N(C)CCNC(=O)CC'],
+}
+
+
+def search_prepared_multistep(ck):
+    """the built-in reaction collections (PreparedReactor.__call__) in multi-step mode (one_shot=False): the set of product
+    molecules does not depend on the order or the numbering of the reactants, contains every one-shot product, and equals the
+    hand-written closure where one is given"""
+    from itertools import permutations
+    from rdkit import Chem
+    from chython import smiles
+    from chython.reactor import reactions
+    rng = random.Random(f'{ck.seed}:c16prep')
+    n = 0
+
+    def product_set(rx, ms, **kw):
+        return {rdkit_canon(p) for r in itertools.islice(rx(*ms, **kw), 400) for p in r.products}
+    for name, rsets in PREPARED_SETS.items():
+        rx = getattr(reactions, name, None)
+        if rx is None:
+            continue
+        for rs in rsets:
+            rp = (f"from itertools import permutations\nfrom chython import smiles\nfrom chython.reactor import reactions\n"
+                  f"for o in permutations({rs!r}):\n    print(o, sorted({{str(p) for r in reactions.{name}(*[smiles(x) for x in o], one_shot=False) for p in r.products}}))")
+            res = {}
+            try:
+                for order in permutations(range(len(rs))):
+                    res[tuple(rs[i] for i in order)] = product_set(rx, [smiles(rs[i]) for i in order], one_shot=False)
+                res[tuple(rs) + ('sparse numbering',)] = product_set(rx, [sparse_renumber(smiles(x), rng) for x in rs], one_shot=False)
+                one = product_set(rx, [smiles(x) for x in rs])
+            except Exception as e:
+                ck.counterexample(f'prepared-raises:{name}:{rs}', f'reactions.{name}(one_shot=False) raises {type(e).__name__}', {'reaction': name, 'reactants': rs},
+                                  f'{type(e).__name__}: {e}', 'reactions', 'no exception expected', replay_py=rp)
+                continue
+            n += 1
+            ck.case(('prepared', name, rs), nontrivial=True)
+            ck.count(f'search:prepared-multistep:{name}', len(res))
+            base = res[tuple(rs)]
+            if len({frozenset(v) for v in res.values()}) != 1:
+                ck.counterexample(f'prepared-order:{name}:{rs}', f'reactions.{name}(one_shot=False): the set of products depends on the order / numbering of the reactants',
+                                  {'reaction': name, 'reactants': rs}, {' + '.join(map(str, k)): sorted(v) for k, v in res.items()}, 'the same set for every order', 'permuted and renumbered reactants', replay_py=rp)
+            elif not one <= base:
+                ck.counterexample(f'prepared-one-shot:{name}:{rs}', f'reactions.{name}: a one-shot product is missing in multi-step mode', {'reaction': name, 'reactants': rs},
+                                  sorted(base), sorted(one), 'one_shot=True products', replay_py=rp)
+            want = PREPARED_EXPECTED.get((name, rs))
+            if want is not None:
+                want = {Chem.MolToSmiles(Chem.MolFromSmiles(x)) for x in want}
+                for k, v in res.items():
+                    if v != want:
+                        ck.counterexample(f'prepared-closure:{name}:{rs}:{k}', f'reactions.{name}(one_shot=False) does not give all products of repeated application', {'reaction': name, 'reactants': k},
+                                          sorted(v), sorted(want), 'closure written by hand', replay_py=rp)
+                        break
+    ck.extra['prepared_multistep_sets_checked'] = n
+
 def run(ck):
     ck.trusted += ['correspondence runner harness/checks/C16.py + harness/coqcases.py + harness/coqmol.py', 'CachedMethods shim harness/boot.py',
                    'CPython 3.12.1', 'RDKit 2026.3 (search only: GetMolFrags as second component oracle)']
@@ -1899,6 +2059,7 @@ def run(ck):
     tied = timed('corr single_stage remap', corr_stage) and tied
     tied = timed('corr loops', corr_loops) and tied
     tied = timed('corr queue', corr_queue) and tied
+    tied = timed('corr prepared', corr_prepared) and tied
     timed('search get_deleted 5-atom graphs', search_deleted_exhaustive)
     timed('search templates', search_templates)
     timed('search identity', search_identity)
@@ -1906,6 +2067,7 @@ def run(ck):
     timed('search reactor', search_reactor)
     timed('search reactor synthetic', search_reactor_synthetic)
     timed('search exhaustive closure', search_exhaustive_closure)
+    timed('search prepared multistep', search_prepared_multistep)
     ck.extra['step_seconds'] = steps
     ck.extra['proved'] = proved
     ck.extra['tied'] = tied
